@@ -333,7 +333,8 @@ class HeapExec(DynExec):
                                 [z3.And(pos >= cum, pos < cum + ln), pos >= cum + ln] if strict else
                                 [pos == cum, z3.And(pos > cum, pos < cum + ln), pos >= cum + ln])
             if it[0] == 'el':
-                raise OutsideSubset('position inside a single element')
+                # either directly before or directly after this single element
+                raise _NeedCase(z3.simplify(pos - cum), k, cum, ln, [pos == cum, pos >= cum + 1])
             off = z3.simplify(pos - cum)
             s1, s2 = self.split_seg(st, it[1], off)
             self._replace_seg_everywhere(st, it[1], [('seg', s1), ('seg', s2)])
@@ -1068,6 +1069,19 @@ class HeapExec(DynExec):
         for s, it in self.eval(g.iter, st):
             if isinstance(it, Rec) and it.kind == 'Token':
                 it = self.getattr(it, 'tokens', s)
+            if isinstance(it, (tuple, list)) and not self.W.is_tt(it) and isinstance(g.target, ast.Name):
+                # [expr for x in <concrete sequence>]: evaluate element-wise (late binding: each closure captures the
+                # value x has when it is created, because closures snapshot their environment)
+                vals = []
+                name = g.target.id
+                for x in it:
+                    s.env[name] = x
+                    rr = self.eval(node.elt, s)
+                    if len(rr) != 1:
+                        raise OutsideSubset('forking list comprehension element')
+                    vals.append(rr[0][1])
+                out.append((s, self.new_list(s, [('el', v) for v in vals])))
+                continue
             if not isinstance(it, LRef):
                 raise OutsideSubset('list comprehension over %r' % (it,))
             body = [ast.Expr(value=node.elt)]
